@@ -42,7 +42,12 @@ def check_partition(ctx, n, k, case):
     hy = _hy()
     batches = []
     for i in range(k):
-        b = hy.get_batch(n, k, i)
+        try:
+            b = hy.get_batch(n, k, i)
+        except Exception as e:
+            ctx.check("batch.valid-call-accepted", False, "get_batch|raises-on-valid",
+                      case, {"n": n, "k": k, "i": i, "exc": repr(e)})
+            return False
         ctx.api("get_batch")
         batches.append(np.asarray(b))
     key = "get_batch|partition"
